@@ -28,7 +28,7 @@ ASSUMPTIONS = [
     "addressing: address = (ULBA<<16 + offset + index) mod 4G)",
 ]
 TRUSTED = ["CPython", "Hypothesis", "reference parser and region merge in vf/props/c18.py", "GNU objdump (BFD ihex)"]
-REGISTER = False
+REGISTER = True
 TECHNIQUE = "Hypothesis region sets; round trip + spec-derived record parser + GNU BFD ihex reader"
 LEVEL_TEXT = (
     "Exploration: each generated region set is saved, every record is checked against the format specification "
@@ -541,6 +541,8 @@ def _worker(arg):
 
 
 def run(ctx):
+    import ppci.api  # noqa: F401  (imported before the pool forks, so that the workers share it)
+
     exclude = sorted(active_findings())
     if exclude:
         ctx.stats.notes.append("generator exclusions active for %s" % ", ".join(exclude))
